@@ -5,6 +5,7 @@ import (
 	"strings"
 
 	"github.com/frankkopp/FrankyGo/internal/types"
+	"github.com/frankkopp/FrankyGo/verifsim/rules"
 )
 
 // CheckApi evaluates the lifecycle invariants of C14 and the API-level
@@ -89,7 +90,7 @@ func CheckApi(sc *Scenario, out *ApiRunOut, res *RunResult) {
 			if c.Limits != nil && c.Root != nil {
 				l := c.Limits
 				selfEnding := l.Depth > 0 || l.Nodes > 0 || l.Mate > 0
-				quickRoot := len(c.Root.LegalMoves()) <= 1 || rootExcluded(c.Root)
+				quickRoot := effectiveRootMoves(c.Root, l.Moves) <= 1 || rootExcluded(c.Root)
 				stopped := false
 				for j := a.call + 1; j < len(out.Calls); j++ {
 					o := out.Calls[j]
@@ -202,6 +203,11 @@ func CheckApi(sc *Scenario, out *ApiRunOut, res *RunResult) {
 			continue
 		}
 		excl := rootExcluded(c.Root)
+		if c07 && f.Best == "NoMove" && !f.BookMove && (f.Value == -int(types.ValueCheckMate) || (f.Value == 0 && !excl)) {
+			// a root with legal moves answered like a root without: no move and
+			// the value of mate / stalemate
+			res.addViolation("C07", "root_scored_terminal_with_legal_moves", fmt.Sprintf("root %s has %d legal moves (searchmoves %v) but the search reports no move and value %d", c.Root.Fen(), len(legal), l0(c.Limits), f.Value))
+		}
 		if c05 && !excl {
 			res.count("c05_searches", 1)
 			if !c.Root.IsLegal(f.Best) {
@@ -237,7 +243,21 @@ func CheckApi(sc *Scenario, out *ApiRunOut, res *RunResult) {
 				}
 			}
 			l := c.Limits
-			if l.Depth > 0 && !stopped && l.Nodes == 0 && !l.TimeControlled() && !l.needsStop() && len(legal) > 1 && len(l.Moves) != 1 {
+			// the moves the search is restricted to: the listed moves that are
+			// legal at the root; a list without any legal move restricts nothing
+			var listed []string
+			for _, m := range l.Moves {
+				if c.Root.IsLegal(m) {
+					listed = append(listed, m)
+				}
+			}
+			if len(l.Moves) > 0 && len(listed) == 0 {
+				res.probe("searchmoves_none_legal")
+			}
+			if len(listed) > 0 && len(listed) < len(l.Moves) {
+				res.probe("searchmoves_partly_legal")
+			}
+			if l.Depth > 0 && !stopped && l.Nodes == 0 && !l.TimeControlled() && !l.needsStop() && len(legal) > 1 && len(listed) != 1 {
 				res.count("depth_samples", 1)
 				if f.Depth != l.Depth {
 					res.addViolation("C13", "depth_not_exact", fmt.Sprintf("depth %d search on %s completed %d iterations", l.Depth, c.Root.Fen(), f.Depth))
@@ -249,10 +269,10 @@ func CheckApi(sc *Scenario, out *ApiRunOut, res *RunResult) {
 					res.addViolation("C13", "nodes_overshoot", fmt.Sprintf("node limit %d on %s: %d nodes visited", l.Nodes, c.Root.Fen(), f.Nodes))
 				}
 			}
-			if len(l.Moves) > 0 {
+			if len(listed) > 0 {
 				res.count("searchmoves_samples", 1)
 				ok := false
-				for _, m := range l.Moves {
+				for _, m := range listed {
 					if strings.EqualFold(m, f.Best) {
 						ok = true
 					}
@@ -281,4 +301,30 @@ func CheckApi(sc *Scenario, out *ApiRunOut, res *RunResult) {
 			}
 		}
 	}
+}
+
+func l0(l *LimitSpec) []string {
+	if l == nil {
+		return nil
+	}
+	return l.Moves
+}
+
+// effectiveRootMoves is the number of root moves a search with this
+// searchmoves list works on: the listed moves that are legal, or all legal
+// moves when the list is empty or names no legal move.
+func effectiveRootMoves(root *rules.Pos, list []string) int {
+	n := 0
+	seen := map[string]bool{}
+	for _, m := range list {
+		k := strings.ToLower(m)
+		if !seen[k] && root.IsLegal(m) {
+			seen[k] = true
+			n++
+		}
+	}
+	if n == 0 {
+		return len(root.LegalMoves())
+	}
+	return n
 }
